@@ -104,6 +104,13 @@ pub enum Auth {
     Sha256Trunc(u8),
     /// SHA-256 under the key, one bit of the HMAC flipped
     Sha256Flipped(u8),
+    /// both attributes: MESSAGE-INTEGRITY right under the key, MESSAGE-INTEGRITY-SHA256 under another
+    /// key (what appending a bogus SHA-256 attribute to a genuine SHA-1 response gives): RFC 8489
+    /// gives MESSAGE-INTEGRITY-SHA256 precedence whenever both are present, so this must be dropped
+    MixedSha1Good(u8),
+    /// both attributes: MESSAGE-INTEGRITY under another key, MESSAGE-INTEGRITY-SHA256 right under the
+    /// key (only the key holder can make this): either answer is admissible
+    MixedSha256Good(u8),
 }
 
 #[derive(Clone, Copy, Debug, Serialize, Deserialize, PartialEq, Eq, Hash, PartialOrd, Ord)]
@@ -244,6 +251,14 @@ pub fn response_wire(id: u8, class: u8, auth: Auth) -> Vec<u8> {
             wire::append_mi(&mut b, &key_bytes(k));
             wire::append_mi256(&mut b, &key_bytes(k), 32);
         }
+        Auth::MixedSha1Good(k) => {
+            wire::append_mi(&mut b, &key_bytes(k));
+            wire::append_mi256(&mut b, b"somebody else's key", 32);
+        }
+        Auth::MixedSha256Good(k) => {
+            wire::append_mi(&mut b, b"somebody else's key");
+            wire::append_mi256(&mut b, &key_bytes(k), 32);
+        }
         Auth::Sha256Trunc(k) => wire::append_mi256(&mut b, &key_bytes(k), 16),
         Auth::Sha256Flipped(k) => {
             wire::append_mi256(&mut b, &key_bytes(k), 32);
@@ -259,9 +274,26 @@ pub fn response_wire(id: u8, class: u8, auth: Auth) -> Vec<u8> {
     b
 }
 
+/// Incoming flavours (the `class` of `Act::Incoming`): 0 request, 1 indication; 4 = request signed
+/// (SHA-1) with the agent's local key, 5 = indication signed (SHA-256) with an unrelated key,
+/// 6 = request signed (SHA-1) with remote key R1, 7 = request signed with R1 and fingerprinted.  The
+/// agent hands every request / indication over and validates its source whatever it is signed with:
+/// authenticating requests is the caller's business (C15: "has been handed a request or
+/// indication received from a").
 pub fn incoming_wire(class: u8, id: u8) -> Vec<u8> {
-    let mut b = wire::encode_header(class, 1, tid(id), 0);
+    let wire_class = if class == 1 || class == 5 { 1 } else { 0 };
+    let mut b = wire::encode_header(wire_class, 1, tid(id), 0);
     wire::append_raw(&mut b, 0x0024, &[0, 0, 0, 9]);
+    match class {
+        4 => wire::append_mi(&mut b, &key_bytes(0)),
+        5 => wire::append_mi256(&mut b, b"somebody else's key", 32),
+        6 => wire::append_mi(&mut b, &key_bytes(1)),
+        7 => {
+            wire::append_mi(&mut b, &key_bytes(1));
+            wire::append_fp(&mut b);
+        }
+        _ => {}
+    }
     b
 }
 
